@@ -7,8 +7,8 @@
   liveness  Reconnect.tla, LiveSpec (weak fairness of service calls and of the clock, a listening server eventually
             accepts): <>[]up => []<>connected; without constraint (the timer is "time left", the state space is finite);
             guard: the property fails under WeakLiveSpec, i.e. it is not vacuous;
-  A         the complete state graph is walked together with real objects (vf/families/_netstacks.conform): tcp.Client
-            (serviceConnect + serviceReceives + serviceTxes as one service call), http.Patron.serviceAll and
+  A         the complete state graph is walked together with real objects (vf/families/_netstacks.conform): tcp.Client and
+            tcp.ClientTls (serviceConnect + serviceReceives + serviceTxes as one service call), http.Patron.serviceAll and
             proto.TcpClientStack.serviceAll over a reconnectable tcp.Client, all over socket doubles whose connect_ex
             answer is chosen by the model; the clock is the store stamp the StoreTimer of the client reads.  The
             specification leaves the implementation one choice (recover and attempt in one call or in two); every step
@@ -27,7 +27,7 @@ from ._netstacks import conform, quiet_console
 
 SPEC_DIR = env.SPECS + "/net"
 PEER = ("10.0.0.9", 5009)
-FLAVORS = ("client", "patron", "stack")
+FLAVORS = ("client", "clienttls", "patron", "stack")
 ACTIONS = ["Advance", "ServerUp", "ServerDown", "Reset", "Refuse", "UserReopen", "Service"]
 INVS = ["TypeOK", "ConnectedIsEstablished", "NeverBoth", "AddressesMatchLiveSocket"]
 PROPS = ["NonReconnectableNeverReopens", "KeepsLiveConnection"]
@@ -106,7 +106,11 @@ class ReconnectAdapter:
                 self.reopen = self.top.reopen
             else:
                 self.clock = storing.Store(stamp=0.0)
-                self.conn = clienting.Client(ha=PEER, store=self.clock, timeout=timeout, reconnectable=rec)
+                if flavor == "clienttls":    # the handshake double succeeds at once: connected = accepted + handshaken
+                    self.conn = clienting.ClientTls(context=dn.FakeTlsContext(), ha=PEER, store=self.clock, timeout=timeout,
+                                                    reconnectable=rec)
+                else:
+                    self.conn = clienting.Client(ha=PEER, store=self.clock, timeout=timeout, reconnectable=rec)
                 if flavor == "patron":
                     self.top = hclienting.Patron(store=self.clock, connector=self.conn)
                     self.service = self.top.serviceAll
@@ -198,7 +202,7 @@ def run_c27(ctx):
                 "advance, server up / down, reset, refusal, application reopen, service call with every connect answer); "
                 "distinct = (state, environment step) pairs executed")
     ctx.assume("TLC, vf/doubles_net.py, the connect-answer double and the projection functions are trusted")
-    ctx.assume("TLS clients are not walked (ClientTls adds the handshake; its loss handling is covered by C25 / C26)")
+    ctx.assume("ssl is not modelled: ClientTls runs over a FakeTlsContext whose handshake succeeds at once (loss during the handshake is C25)")
     ctx.assume("liveness assumes weak fairness of service calls and of the clock and that a listening server eventually accepts; "
                "the bounded response counter starts again whenever the timer expires anew (a timeout shorter than the service "
                "period cannot be met by any timeout driven client)")
